@@ -74,7 +74,8 @@ end Stab
 
 namespace Stab.Status
 /-- driver: `status can A B` | `status flags A` -/
-def drive : List String → String
+def drive (rest : String) : String :=
+  match rest.splitOn " " with
   | ["can", a, b] =>
     match ofName? a, ofName? b with
     | some x, some y => toString (canTransition x y)
